@@ -23,7 +23,7 @@ RULE = (
     "IndexError); its kernels are run in plain Python on the same inputs. Oracles: tensors equal the C kernel's within rounding; "
     "descriptor fields (rank, coefficient count/positions/names, constant ranks/shapes/names, element hashes, ids, offsets, "
     "per-integral enabled flags / permutation flag / coordinate hash / domain tag; expression points, shape, counts) equal the C "
-    "descriptor's. Non-trivial = kernel contains a math function, a condition, or is a facet kernel; distinct by spec hash."
+    "descriptor's. A sample of the modules is also compiled by numba itself (cfunc, nopython) and called through the C pointer. Non-trivial = kernel contains a math function, a condition, or is a facet kernel; distinct by spec hash."
 )
 P_FORMS = {"cells": ["interval", "triangle", "quadrilateral", "tetrahedron", "prism"], "measures": ["dx", "dx", "ds", "dS", "dP"], "ids": "rich",
            "max_integrals": 3, "depth": 2, "maxdeg": 2, "max_qdeg": 2, "p_scheme": 0.0, "ncoef": (0, 2)}
@@ -110,7 +110,46 @@ def call_numba_kernel(itg, scalar_type, shape, w, c, x, entity, perm, A0=None):
     return A.reshape(shape)
 
 
-def evaluate_form(spec, wd):
+def _as_c(a):
+    import ctypes
+
+    return a.ctypes.data_as(ctypes.POINTER(np.ctypeslib.as_ctypes_type(a.dtype)))
+
+
+def real_numba_group(text, name, fr, itype, sid, ent, data, st_):
+    """Compile the kernels of (itype, sid) with the real numba (cfunc, nopython) and run them; returns A or raises."""
+    import numba
+
+    from ffcx.codegeneration.utils import dtype_to_scalar_dtype, numba_ufcx_kernel_signature
+
+    ns = {"__name__": "vf_generated_numba_real"}
+    exec(compile(text, "<numba module>", "exec"), ns)
+    F = ns[name]
+    sdt = np.dtype(st_)
+    rdt = np.dtype(dtype_to_scalar_dtype(sdt.type))
+    sig = numba_ufcx_kernel_signature(sdt.type, rdt.type)
+    width = 2 if itype == "interior_facet" else 1
+    dims = [e.dim for e in fr.fd.argument_elements]
+    shape = tuple(width * n for n in dims)
+    w = np.asarray(inputs.pack_w(fr.form.coefficients(), fr.desc["original_coefficient_positions"], data, width), dtype=sdt)
+    c = np.asarray(inputs.pack_c(fr.form.constants(), data), dtype=sdt)
+    x = np.asarray(inputs.pack_coordinates(data.x, width), dtype=rdt)
+    pad = np.zeros(1, dtype=sdt)
+    A = np.zeros(int(np.prod(shape)) if shape else 1, dtype=sdt)
+    e_ = np.asarray(list(ent[:width]) if itype != "cell" else [0], dtype=np.intc)
+    p_ = np.zeros(2, dtype=np.uint8)
+    tag = formcheck.entity_celltype_tag(fr.spec["cell"], itype, ent[0])
+    n = 0
+    for i in kernels.integrals_of(fr.desc, itype, sid):
+        if fr.desc["integrals"][i]["domain"] != tag:
+            continue
+        k = numba.cfunc(sig, nopython=True)(F.form_integrals[i].tabulate_tensor)
+        k.ctypes(_as_c(A), _as_c(w if w.size else pad), _as_c(c if c.size else pad), _as_c(x), _as_c(e_), _as_c(p_), 0)
+        n += 1
+    return (A.reshape(shape) if shape else A), n
+
+
+def evaluate_form(spec, wd, real_numba=False):
     sclean = strategies.strip_meta(spec)
     h = spec_hash(sclean)
     classes = strategies.spec_classes(spec)
@@ -186,6 +225,17 @@ def evaluate_form(spec, wd):
         diff = float(np.nanmax(np.abs(np.asarray(A_c).astype(np.complex128) - np.asarray(A_n).astype(np.complex128))))
         if not diff <= 2e3 * u * scale:
             return viol("value", f"({itype},{sid}) entity {ent}: numba and C kernels differ by {diff:.3e} at scale {scale:.3e} ({st_})")
+        if real_numba and "scipy.special" not in text and not fr.complex:
+            # the generated function as numba itself compiles it (cfunc, nopython), called through its C pointer
+            try:
+                A_r, nk = real_numba_group(text, names[0][1], fr, itype, sid, ent, data, st_)
+            except Exception as e:  # numba typing / lowering errors
+                return viol("numba-compile", f"numba.cfunc(nopython=True) cannot compile kernel ({itype},{sid}) of a form the C backend accepts: "
+                            f"{type(e).__name__}: {str(e)[:400]}")
+            diff_r = float(np.nanmax(np.abs(np.asarray(A_c).astype(np.complex128) - np.asarray(A_r).astype(np.complex128))))
+            if not diff_r <= 2e3 * u * scale:
+                return viol("value-real-numba", f"({itype},{sid}) entity {ent}: numba-compiled kernel and C kernel differ by {diff_r:.3e} at scale {scale:.3e} ({st_})")
+            classes.append("real-numba-kernels-compiled")
         checked += 1
         if itype != "cell" or any(f.startswith(("fun:", "op:cond", "op:max", "op:min")) for f in feats):
             nontrivial = True
@@ -259,12 +309,15 @@ def evaluate_expr(spec, wd):
     return Outcome("ok", case_id=h, nontrivial=True, classes=classes, sample={"spec": sclean})
 
 
-def shard(shard, nshards, n, seed):
+def shard(shard, nshards, n, seed, n_real=1):
     res = ShardResult()
     have_scipy = scipy_available()
     res.count("bessel-forms-generated" if have_scipy else "bessel-forms-excluded:scipy-not-importable")
     with scratch(f"vf-c18-{shard}-") as wd:
         drive(strategies.form_specs(dict(P_FORMS, bessel=have_scipy)), lambda s: evaluate_form(s, wd), n, (PROP, seed, shard, "forms"), res, shrink_calls=30)
+        # a sample through numba's own compiler (about 5 s per kernel)
+        small = dict(P_FORMS, bessel=False, max_integrals=2, cells=["interval", "triangle", "quadrilateral", "tetrahedron"])
+        drive(strategies.form_specs(small), lambda s: evaluate_form(s, wd, real_numba=True), n_real, (PROP, seed, shard, "real-numba"), res, shrink_calls=4)
         drive(strategies.expr_specs({"maxdeg": 2}), lambda s: evaluate_expr(s, wd), max(1, n // 3), (PROP, seed, shard, "exprs"), res, shrink_calls=30)
     return res
 
@@ -272,10 +325,11 @@ def shard(shard, nshards, n, seed):
 def run(tier: str) -> int:
     run_ = Run(PROP, tier, "exploration", RULE)
     n = 6 if tier == "quick" else 120
-    for part in run_shards(shard, 16, n=n, seed=verif_seed()):
+    for part in run_shards(shard, 16, n=n, seed=verif_seed(), n_real=1 if tier == "quick" else 8):
         run_.merge(part)
     run_.assumptions = [
-        "kernels are executed in plain Python with a numba shim (carray = exact-size numpy view); numba's own compilation is not exercised here",
+        "kernels are executed in plain Python with a numba shim (carray = exact-size numpy view); in addition a sample (1 form per shard quick, 8 thorough) "
+        "is compiled with the real numba.cfunc(nopython=True) and called through its C pointer (float32/float64, no Bessel functions)",
         "C kernels are the reference (they are judged against the independent evaluator by C01/C02/C04)",
     ]
     return run_.finish()
